@@ -63,7 +63,7 @@ API_LEVEL = {"debug": 10, "info": 20, "warning": 30, "error": 40, "assertion": 4
 
 
 def budget(tier):
-    return dict(examples=120, seconds=36) if tier == "quick" else dict(examples=1500, seconds=440)
+    return dict(examples=100, seconds=30) if tier == "quick" else dict(examples=1500, seconds=400)
 
 
 # ------------------------------------------------------------------------------------------------ strategy
